@@ -683,6 +683,61 @@ pub fn execute(plan: &Plan, only_faults: Option<&[usize]>) -> Outcome {
                 }
             }
         }
+        if q.class == "cursor_status" {
+            if let Some(ok) = b.get("ok") {
+                // model: newest cursor frame overall = active; newest per (provider, endpoint, model), first 32
+                // keys met from the tail, sorted by (provider, endpoint|"", model|"")
+                let mut active: Option<String> = None;
+                let mut keys: Vec<(String, String, String, String)> = Vec::new();
+                for f in tframes.iter().rev().filter(|f| f.ty() == "continuity_provider_cursor_updated") {
+                    if active.is_none() {
+                        active = Some(f.id().to_string());
+                    }
+                    let k = (f.s("provider").to_string(), f.s("endpoint").to_string(), f.s("model").to_string());
+                    if !keys.iter().any(|x| (x.0.as_str(), x.1.as_str(), x.2.as_str()) == (k.0.as_str(), k.1.as_str(), k.2.as_str())) {
+                        if keys.len() >= 32 {
+                            break;
+                        }
+                        keys.push((k.0, k.1, k.2, f.id().to_string()));
+                    }
+                }
+                keys.sort();
+                let expect: Vec<String> = keys.into_iter().map(|k| k.3).collect();
+                let got: Vec<String> = ok["cursors"]
+                    .as_array()
+                    .map(|a| a.iter().map(|c| c["cursor_event_id"].as_str().unwrap_or("").to_string()).collect())
+                    .unwrap_or_default();
+                let got_active = ok["active"]["cursor_event_id"].as_str().map(|x| x.to_string());
+                if got != expect || got_active != active {
+                    out.model_mismatch.push((
+                        q.name.clone(),
+                        format!("no-cache cursor status (active {got_active:?}, {} cursors) vs raw-log model (active {active:?}, {} cursors)", got.len(), expect.len()),
+                    ));
+                }
+            }
+        }
+        if q.class == "selection_status" {
+            if let Some(ok) = b.get("ok") {
+                let limit = q.args["limit"].as_u64().unwrap_or(10).min(50) as usize;
+                let expect: Vec<(String, u64)> = tframes
+                    .iter()
+                    .rev()
+                    .filter(|f| f.ty() == "continuity_context_selection_decided")
+                    .take(limit)
+                    .map(|f| (f.id().to_string(), f.seq()))
+                    .collect();
+                let got: Vec<(String, u64)> = ok["decisions"]
+                    .as_array()
+                    .map(|a| a.iter().map(|d| (d["decision_event_id"].as_str().unwrap_or("").to_string(), d["seq"].as_u64().unwrap_or(0))).collect())
+                    .unwrap_or_default();
+                if got != expect {
+                    out.model_mismatch.push((
+                        q.name.clone(),
+                        format!("no-cache selection status lists seqs {:?}… vs raw-log model {:?}…", got.iter().map(|x| x.1).take(6).collect::<Vec<_>>(), expect.iter().map(|x| x.1).take(6).collect::<Vec<_>>()),
+                    ));
+                }
+            }
+        }
         if q.class == "cut_points" {
             if let Some(ok) = b.get("ok") {
                 let stride = q.args["stride"].as_u64().unwrap_or(1).max(1);
